@@ -475,6 +475,23 @@ func c14Run(c *core.Ctx) {
 				}
 			}
 		}
+		// multi-byte runes in place of as many ASCII characters (the byte length — what length checks see — is unchanged,
+		// the rune count is not): Unicode decimal digits of 2, 3 and 4 bytes, a letter, a numeral that is no digit, and
+		// an invalid byte; one substitution at every position, and two at every pair of positions in the first ten bytes
+		wide := []string{"é", "\u0662", "\uff12", "\U0001d7d0", "\u2167", "\xff\xfe"}
+		for _, v := range valid {
+			for _, w := range wide {
+				for pos := 0; pos+len(w) <= len(v); pos++ {
+					one := v[:pos] + w + v[pos+len(w):]
+					texts = append(texts, one)
+					for _, w2 := range wide {
+						for p2 := pos + len(w); p2+len(w2) <= len(v) && p2 < 10; p2++ {
+							texts = append(texts, one[:p2]+w2+one[p2+len(w2):])
+						}
+					}
+				}
+			}
+		}
 		for hi := range c14Helpers {
 			h := &c14Helpers[hi]
 			if h.text == nil {
@@ -562,7 +579,7 @@ func init() {
 			if tier == "thorough" {
 				l3 = "every byte string of length 3 (all 2^24)"
 			}
-			return "per helper (35 byte-input helpers incl. the nasType.MobileIdentity5GS / DNN text getters, 4 text-input variants): every byte string of length 0..2, " + l3 + ", every string of length 4..6 (7 thorough) over an 8-value branch-constant alphabet, every string of length 4 (thorough: 5) over the alphabet read from the helper's current source (every integer literal 0..255 and character literal of the nasConvert package resp. the element's file, plus the fixed alphabet), lengths up to 12 (24) as identity-type octet x fill x single deviation, and the <=2-mutation neighbourhood (every truncation, every single-octet replacement by all 256 values, deletions, insertions, pairs of replacements, every valid prefix followed by a constant-filled tail of 1..24 octets) of 12 valid encodings (truncations and a 13-value replacement at every position also with the library logger at its default level (everything else runs at trace level)), and the unit-repetition family (n copies of a length-prefixed unit of 0, 1, 2, 3, 4, 5 or 8 octets — every n that fits into 255 octets, thinned above 40 in the quick tier — followed by 0..2 copies of each other unit, bare, behind a leading 00 / 01 octet, and cut one octet short: limits that depend on the number of entries); text variants over all strings of length <=3 over {0,9,a,f,g,-,é} and <=2 mutations of valid texts. Oracle: returns without panic (recover), terminates and stays within the heap limit (worker watchdog). Element-typed helpers are judged on lengths the decoders can deliver; shorter inputs are counted separately."
+			return "per helper (35 byte-input helpers incl. the nasType.MobileIdentity5GS / DNN text getters, 4 text-input variants): every byte string of length 0..2, " + l3 + ", every string of length 4..6 (7 thorough) over an 8-value branch-constant alphabet, every string of length 4 (thorough: 5) over the alphabet read from the helper's current source (every integer literal 0..255 and character literal of the nasConvert package resp. the element's file, plus the fixed alphabet), lengths up to 12 (24) as identity-type octet x fill x single deviation, and the <=2-mutation neighbourhood (every truncation, every single-octet replacement by all 256 values, deletions, insertions, pairs of replacements, every valid prefix followed by a constant-filled tail of 1..24 octets) of 12 valid encodings (truncations and a 13-value replacement at every position also with the library logger at its default level (everything else runs at trace level)), and the unit-repetition family (n copies of a length-prefixed unit of 0, 1, 2, 3, 4, 5 or 8 octets — every n that fits into 255 octets, thinned above 40 in the quick tier — followed by 0..2 copies of each other unit, bare, behind a leading 00 / 01 octet, and cut one octet short: limits that depend on the number of entries); text variants over all strings of length <=3 over {0,9,a,f,g,-,é}, <=2 mutations of valid texts, and byte-length-preserving substitutions of multi-byte runes (Unicode decimal digits of 2, 3, 4 bytes, a letter, a non-digit numeral, invalid bytes) at every position and every pair of positions in the first ten bytes. Oracle: returns without panic (recover), terminates and stays within the heap limit (worker watchdog). Element-typed helpers are judged on lengths the decoders can deliver; shorter inputs are counted separately."
 		},
 		Assumptions: []string{
 			"element-typed helpers (MobileIdentity5GS getters: >= 4 octets, DNN: >= 1, fixed-size time elements) are judged on decoder-deliverable lengths only",
